@@ -15,7 +15,7 @@ NOT_PROVED = ["IEEE rounding of the cumulative sums (measured per case: max_roun
 ASSUMPTIONS = ["scipy.integrate.cumulative_trapezoid and np.cumsum are the sums their documentation states (prelude primitives, differentially tested)"]
 
 
-PROP_MODULES = ['C08', 'C08Gen']
+PROP_MODULES = ['C08', 'C08Gen', 'C08Residual', 'C08GenResidual']
 
 def run(ctx):
     import eqsig
@@ -499,6 +499,11 @@ _run_main_nf = run
 def run(ctx):
     _run_main_nf(ctx)
     _NF.narrow_oracles(ctx, 'C08', _narrow_table())
+    ctx.flush()
+    # baseline-correction mutators (rebase_displacement, set_zero_residual_*, correct_me, remove_rolling_average): exact model
+    # Model/Single2.lean (regenerated as Gen/Single2, bridges Props/C08GenResidual, C17GenRolling) vs the implementation
+    from _single2_corr import corr_single2
+    corr_single2(ctx)
     ctx.flush()
 
 
